@@ -29,7 +29,7 @@ META = dict(
     level_note='Trusted: Lean kernel + standard axioms; the Cartesian matching of sites and jump classes between descriptions (harness).',
     technique='Lean 4 relabelling theorem + decidable network-equivalence check + differential runs across descriptions',
     rule='crystals (FCC/BCC/HCP/SC hosts with interstitials, multi-site, 2-D) x re-descriptions (random unimodular basis, atom '
-         'permutation, supercell det 2-4 with noreduce) x random data assigned by Cartesian equivalence; non-trivial = the lattice '
+         'permutation, supercell det 2-4 kept with noreduce, supercell det 2-4 with shuffled atoms handed to the reducing constructor) x random data assigned by Cartesian equivalence; non-trivial = the lattice '
          'vectors or the site order really differ; distinct by (crystal, re-description, data)',
     trusted=[], assumptions=[],
 )
@@ -64,7 +64,7 @@ def redescribe(rng, crys, kind):
             p = list(range(len(atoms))); rng.shuffle(p)
             basis.append([atoms[k] for k in p])
         return crystal.Crystal(crys.lattice, basis, chemistry=crys.chemistry)
-    if kind == 'supercell':
+    if kind in ('supercell', 'reduce'):
         while True:
             S = np.diag([rng.choice([1, 2]) for _ in range(dim)]).astype(int)
             S[0, 1] = rng.choice([0, 1])
@@ -80,8 +80,14 @@ def redescribe(rng, crys, kind):
                 for n in shifts:
                     v = crystal.incell(Si @ (u + n))
                     if not any(np.allclose(crystal.inhalf(v - w), 0, atol=1e-8) for w in new): new.append(v)
+            if kind == 'reduce':
+                # atom order as a user might list it: shuffled, ascending or descending in the first coordinate
+                how = rng.choice(['shuffle', 'asc', 'desc'])
+                if how == 'shuffle': rng.shuffle(new)
+                else: new.sort(key=lambda v: tuple(np.round(v, 9)), reverse=(how == 'desc'))
             basis.append(new)
-        return crystal.Crystal(L2, basis, chemistry=crys.chemistry, noreduce=True)
+        # 'reduce': the constructor must find the primitive cell again; 'supercell': the non-primitive cell is kept as given
+        return crystal.Crystal(L2, basis, chemistry=crys.chemistry, noreduce=(kind == 'supercell'))
     raise ValueError(kind)
 
 
@@ -135,11 +141,11 @@ def run(ctx):
     from onsager import OnsagerCalc
     rng = ctx.rng
     nets = ic.networks()
-    ncase = 14 if ctx.quick else 200
+    ncase = 18 if ctx.quick else 260
     lines, plan = [], []
     for t in range(ncase):
         name, c1, chem, sl1, jn1 = nets[t % len(nets)]
-        kind = ('unimodular', 'permute', 'supercell')[(t + t // len(nets)) % 3]
+        kind = ('unimodular', 'permute', 'supercell', 'reduce')[(t + t // len(nets)) % 4]
         if c1.dim == 2 and kind == 'supercell' and name.startswith('honey'): kind = 'permute'
         cutoff = max(np.sqrt(np.dot(dx, dx)) for cls in jn1 for (ij, dx) in cls) * (1 + 1e-6) + 1e-9
         try:
